@@ -281,12 +281,11 @@ def shift_inline_swap(rnd, m):
     for g in m2.get("groups", []):
         # the same on a resource group (its members inherit the hours either way; seeded change C15-d ignored inherited
         # shift references)
-        if g.get("shift") and rnd.random() < 0.6:
+        if g.get("shift") and not m2.get("shift_leaves", {}).get(g["shift"]) and rnd.random() < 0.6:
+            # (a shift that carries leaves is left alone: as leaves of the GROUP they would also reach members that have
+            #  hours of their own and never worked that shift - not the same meaning; false alarm #23)
             sid = g.pop("shift")
             g["inline"] = m2["shifts"][sid]
-            extra = list(m2.get("shift_leaves", {}).get(sid, []))
-            if extra:
-                g["leaves"] = list(g.get("leaves", [])) + extra
             n += 1
         elif g.get("inline") and rnd.random() < 0.6:
             sid = "xg%d" % len(m2["shifts"])
